@@ -1055,6 +1055,10 @@ func (interp *Interpreter) cfg(root *node, sc *scope, importPath, pkgName string
 			default:
 				n.typ = t.val
 			}
+			if n.typ == nil {
+				err = n.cfgErrorf("type is not an array, slice, string or map: %v", t.id())
+				break
+			}
 			n.findex = sc.add(n.typ)
 			typ := t.TypeOf()
 			if typ.Kind() == reflect.Map {
@@ -1079,6 +1083,9 @@ func (interp *Interpreter) cfg(root *node, sc *scope, importPath, pkgName string
 				}
 			default:
 				err = n.cfgErrorf("type is not an array, slice, string or map: %v", t.id())
+			}
+			if err != nil {
+				break
 			}
 
 			err = check.index(n.child[1], l)
